@@ -171,12 +171,11 @@ func verifWaitQuiescent() {
 	veriftime.Sleep(120 * veriftime.Millisecond)
 }
 
-
-func verifHeldLocks() int                  { return 0 }
-func verifIsNative() bool                  { return true }
-func verifMaxAlloc() int                   { return 0 }
-func verifAllocReset()                     {}
-func verifNote(s string)                   {}
+func verifHeldLocks() int { return 0 }
+func verifIsNative() bool { return true }
+func verifMaxAlloc() int  { return 0 }
+func verifAllocReset()    {}
+func verifNote(s string)  {}
 
 // verifWSReadLimit returns the message read limit of a stubbed WebSocket connection (executor only; natively the
 // harness exercises a real connection instead).
